@@ -5,7 +5,7 @@
    without '\n'; the reader follows ANY schedule [sch] of read sizes. *)
 From Coq Require Import ZArith List Bool.
 From RM Require Import Base.Word C08.Model C11.Model C09.Model C09.Grammar C09.Driver C09.Proofs C09.ProofsBytes C09.ProofsFinish C09.ProofsFinal C09.ProofsTrace C09.Circular C09.ProofsCircular C09.ProofsLines.
-From RM Require C09.Pins.
+From RM Require C09.Pins C09.PinsMem.
 Import ListNotations.
 Open Scope Z_scope.
 
@@ -360,3 +360,17 @@ Theorem c09_bytes_run_is_drive :
       bo_cb bo = cbsum s /\ bo_cbok bo = true /\ bo_left bo = avail (buf s).
 Proof. exact run_bytes_is_drive. Qed.
 Print Assumptions c09_bytes_run_is_drive.
+
+(* The byte-level Buffer operations of C09/Circular.v are what the source of the pinned circular crate says: rebuilt from
+   generic memory primitives (a Vec of a repeated value, slices, ptr::copy as memmove, Vec::resize) applied to the operands
+   that translate/c09_circular_mem.py reads off with_capacity / data / space / shift / grow (coq/Gen/C09CircMem.v) and the
+   conditions translate/symfile_loop.py reads off consume / fill / grow / shift, they are the model's operations. *)
+Theorem c09_memory_ops_are_source :
+  (forall c, PinsMem.with_capacity_src c = with_capacity c) /\
+  (forall b, PinsMem.bdata_src b = bdata b /\ PinsMem.bspace_slice_src b = bspace_slice b) /\
+  (forall b, PinsMem.bshift_src b = bshift b) /\
+  (forall b k, PinsMem.bconsume_src b k = bconsume b k) /\
+  (forall b k, PinsMem.bfill_src b k = bfill b k) /\
+  (forall b n, zlength (m_mem b) = m_cap b -> PinsMem.bgrow_src b n = bgrow b n).
+Proof. exact PinsMem.pin_memory_ops. Qed.
+Print Assumptions c09_memory_ops_are_source.
